@@ -690,7 +690,19 @@ _OPEN_RE = re.compile(r"<\s*([a-zA-Z][a-zA-Z0-9]*)[^<>]*?(/?)>|</\s*([a-zA-Z][a-
                       re.MULTILINE)
 
 
+_COMMENT_RE = re.compile(r"<!--.*?-->", re.DOTALL)
+
+
 def nesting(s):
+    """nesting measure of the text and of the text with its comments removed (the parser strips <!-- --> first, which glues what stood
+    on both sides: '*#:;<!-- c -->*#:;' is a list prefix of length 8)"""
+    n = _nesting(s)
+    if "<!--" in s:
+        n = max(n, _nesting(_COMMENT_RE.sub("", s)))
+    return n
+
+
+def _nesting(s):
     """Conservative syntactic nesting measure: openers push per kind, a closer pops only its own kind
     (so unclosed inner constructs keep counting); a list prefix counts its length; an apostrophe run
     counts 2 (bold+italic) for the rest of its line."""
